@@ -23,7 +23,7 @@ ASSUMPTIONS = ['processes of a case are identified as the processes carrying the
 SHRINK = 'greedy'
 SHRINK_RUNS = 8
 TIME_BUDGET = {'quick': 170, 'thorough': 1700}
-CHILD = ['coop', 'swallow', 'idle_p', 'busy_p', 'finished', 'p_in_ctx', 'empty_ctx', 'dup_ctx', 'starting']
+CHILD = ['coop', 'swallow', 'idle_p', 'busy_p', 'finished', 'p_in_ctx', 'empty_ctx', 'dup_ctx', 'starting', 'swallow_in_ctx', 'busy_in_ctx']
 REQUIRED = {'quick': {'child:' + c: 15 for c in CHILD}, 'thorough': {'child:' + c: 150 for c in CHILD}}
 REQUIRED['quick'].update({'stop:sigterm': 40, 'stop:terminate': 40, 'stop:terminate_noforce': 15, 'live_children>=2': 40})
 
@@ -91,12 +91,19 @@ def run_case(case, ctx):
                 elif c == 'finished':
                     w = bounded(RemoteWorker, 25, vtargets.quick_return, args=[7], host=srv.addr)
                     bounded(w.wait, 20, 10)
-                elif c in ('p_in_ctx', 'empty_ctx', 'dup_ctx'):
-                    rc = bounded(RemoteContext, 25, next_ctx, host=srv.addr, target=vtargets.echo_item)
+                elif c in ('p_in_ctx', 'empty_ctx', 'dup_ctx', 'swallow_in_ctx', 'busy_in_ctx'):
+                    tgt = {'swallow_in_ctx': vtargets.swallow_everything, 'busy_in_ctx': vtargets.coop_loop}.get(c, vtargets.echo_item)
+                    rc = bounded(RemoteContext, 25, next_ctx, host=srv.addr, target=tgt)
                     ctxs.append(rc)
                     w = None
                     if c == 'p_in_ctx':
                         w = bounded(PersistentRemoteWorker, 25, None, context=next_ctx, host=srv.addr)
+                    elif c in ('swallow_in_ctx', 'busy_in_ctx'):
+                        # a busy worker inside a context (uncooperative / cooperative) plus an idle sibling in the same context
+                        w = bounded(PersistentRemoteWorker, 25, None, context=next_ctx, host=srv.addr)
+                        w.enqueue(escape if c == 'swallow_in_ctx' else 100000)
+                        sib = bounded(PersistentRemoteWorker, 25, None, context=next_ctx, host=srv.addr)
+                        kids.append((c + ':idle_sibling', sib))
                     elif c == 'dup_ctx':
                         try:
                             bounded(RemoteContext, 25, next_ctx, host=srv.addr, target=vtargets.echo_item)
@@ -159,6 +166,7 @@ def run_case(case, ctx):
                 kids.append(('coop_started_during_stop', box['w']))
         # ---- parents
         all_coop = all(c in ('coop', 'finished') for c in case['children'])
+        time.sleep(0.05)
         for c, w in kids:
             wsite = f'{case["stop"]}:{c}'
             try:
